@@ -62,21 +62,28 @@ def count_loc(class_node: Any, source: str) -> int:
 
 
 def _count_code_lines(lines: list[str]) -> int:
-    """Count lines that are neither blank, // comments, nor inside a /* ... */ block comment."""
+    """Count lines holding code: not blank, not a // comment, not (only) part of a /* ... */ block comment."""
     count = 0
     in_block_comment = False
     for line in lines:
-        stripped = line.strip()
-        if in_block_comment:
-            in_block_comment = "*/" not in stripped
-            continue
-        if not stripped or stripped.startswith("//"):
-            continue
-        if stripped.startswith("/*"):
-            in_block_comment = "*/" not in stripped
-            continue
-        count += 1
+        rest, in_block_comment = _outside_block_comments(line.strip(), in_block_comment)
+        if rest and not rest.startswith("//"):
+            count += 1
     return count
+
+
+def _outside_block_comments(text: str, in_block_comment: bool) -> tuple[str, bool]:
+    """What a line holds before its first code: leading block comments (opened here or earlier) are dropped.
+
+    `/* c */ a = 1;` and `*/ a = 1;` hold code; a line that only continues, opens or closes a comment does not.
+    """
+    while in_block_comment or text.startswith("/*"):
+        start = 0 if in_block_comment else len("/*")
+        end = text.find("*/", start)
+        if end < 0:
+            return "", True
+        text, in_block_comment = text[end + len("*/") :].strip(), False
+    return text, False
 
 
 def _get_class_body(class_node: Any) -> Any:
@@ -129,7 +136,10 @@ def _is_declared_private(node: Any) -> bool:
     for child in node.children:
         if child.type == "private_property_identifier":
             return True
-        if child.type == "accessibility_modifier" and child.text.decode() in ("private", "protected"):
+        if child.type == "accessibility_modifier" and child.text.decode() in (
+            "private",
+            "protected",
+        ):
             return True
     return False
 
